@@ -5,6 +5,7 @@
   function (inner `*T`), cleanup callback of either `*T`.
 -/
 import RapidProofs.Signals
+import RapidModel.Generated.CallOrders
 
 namespace Rapid.C02
 
@@ -58,5 +59,32 @@ example : (checkOnce (.inner (.cleanup (.errorf "late" .done) (.ret .nil)) .ret)
     = some (.stop "late" sitePending) := by
   simp [checkOnce, Prog.bind, Prog.run, Out.ofRes, cleanupPhase, TS.fresh, runStack, stackSize, Out.after,
     CTree.run, CTree.size, pickErr]
+
+/-- `T.fail` re-read from /repo statement by statement: the failure is recorded on this `T` and handed to the parent `T` *recursively* (so that it reaches the test case through any nesting of Custom functions); `now` panics with `stopTest` -/
+theorem fail_body_source : Rapid.Generated.body_T_fail =
+    ["{", "t.mu.Lock()", "defer t.mu.Unlock()", "t.failed = stopTest(msg)", "t.didFail = true",
+     "if t.parent != nil {", "t.parent.fail(false, msg)", "}", "if now {", "panic(t.failed)", "}", "}"] := by rfl
+
+/-- `T.failOnError` re-read from /repo statement by statement: a recorded non-fatal failure becomes a `stopTest` panic -/
+theorem failOnError_body_source : Rapid.Generated.body_T_failOnError =
+    ["{", "t.mu.RLock()", "defer t.mu.RUnlock()", "if t.didFail {", "panic(t.failed)", "}", "}"] := by rfl
+
+/-- `customGen.maybeValue` re-read from /repo statement by statement: the function runs on a fresh `T` whose parent is the caller's; only invalid data is swallowed (the attempt is rejected), every other panic goes on -/
+theorem maybeValue_body_source : Rapid.Generated.body_customGen_maybeValue =
+    ["{", "parent := t", "t = newT(t.tb, t.s, flags.debug, nil)", "t.parent = parent", "failing := false",
+     "defer t.cleanupCustom(&failing)", "defer func() {", "if r := recover(); r != nil {",
+     "if _, ok := r.(invalidData); !ok {", "failing = true", "panic(r)", "}", "}", "}()", "return g.fn(t), true", "}"] := by rfl
+
+/-- `checkOnce` re-read from /repo statement by statement -/
+theorem checkOnce_body_source : Rapid.Generated.body_checkOnce =
+    ["{", "if t.tbLog {", "t.tb.Helper()", "}", "err := runProp(t, prop)", "if err == nil || err.isInvalidData() {",
+     "if failed := pendingFailure(t); failed != nil {", "err = failed", "}", "}", "t.resetFailed()", "return err",
+     "}"] := by rfl
+
+/-- `runProp` re-read from /repo statement by statement: `panicToError(recover())` around the property, the cleanups deferred -/
+theorem runProp_body_source : Rapid.Generated.body_runProp =
+    ["{", "if t.tbLog {", "t.tb.Helper()", "}", "defer func() {", "err = panicToError(recover(), 3)",
+     "if id := t.takeSkipped(); id != nil && err == nil {", "err = &testError{data: *id}", "}", "}()",
+     "defer t.cleanup()", "prop(t)", "return nil", "}"] := by rfl
 
 end Rapid.C02
